@@ -1,6 +1,7 @@
 #!/bin/bash
 # prints the shrunk replays compactly
-for f in /verif/replays/${1:-}*.json; do python3 - "$f" "${2:-500}" <<'PY'
+DIR="$(dirname "$(readlink -f "$0")")"
+for f in "$DIR"/replays/${1:-}*.json; do python3 - "$f" "${2:-500}" <<'PY'
 import json,sys
 r=json.load(open(sys.argv[1])); p=r['plan']
 def short(l):
